@@ -1,6 +1,6 @@
 (* C10 - Only well-formed tokens come out of constructors and decoders. *)
 From Coq Require Import String.
-Require Import Base Node Did Command SelParse Policy PolicyIpld Generated Envelope EnvelopeProofs Token TokenProofs SealProofs Args ArgsProofs.
+Require Import Base Node Did Command SelParse Policy PolicyIpld Generated Envelope EnvelopeProofs Token TokenProofs SealProofs Args ArgsProofs Literal LiteralProofs.
 Local Open Scope N_scope.
 
 Theorem C10_decoded_delegation_is_well_formed : forall n t, dlg_from_payload n = Ok t ->
@@ -125,3 +125,20 @@ Theorem C10_invocation_arguments_are_the_first_value_per_key : forall os a a', N
   NoDup (map fst a') /\ forall k, map_get k a' = match map_get k a with Some v => Some v | None => first_get k os end.
 Proof. exact options_first_value_wins. Qed.
 Print Assumptions C10_invocation_arguments_are_the_first_value_per_key.
+
+(* ---- literal.Any, the conversion every argument, metadata value and policy literal a caller supplies goes through
+   (Literal.v: Go values by reflect.Kind; the fast path and the reflective walk with its recovered panics): a value is
+   stored as the node that says exactly what the value says - same scalars, same elements in order, same entries - or
+   refused; never anything else, and never a panic. ---- *)
+Theorem C10_supplied_value_is_stored_exactly_or_refused : forall v n, lit_any v = Ok n -> denotes v n.
+Proof. exact lit_any_exact. Qed.
+Print Assumptions C10_supplied_value_is_stored_exactly_or_refused.
+
+Theorem C10_conversion_never_panics : forall v, lit_any v <> Panic.
+Proof. exact lit_any_never_panics. Qed.
+Print Assumptions C10_conversion_never_panics.
+
+(* everything but a ready-made node comes out with its integers within +-(2^53-1), at any depth *)
+Theorem C10_converted_values_are_in_range : forall v n, (forall x, v <> GNode x) -> lit_any v = Ok n -> PolicyIpld.ints_in53 n = true.
+Proof. exact reflective_values_are_in_range. Qed.
+Print Assumptions C10_converted_values_are_in_range.
